@@ -6,8 +6,7 @@
    (ConstantOpcode.new no longer coerces "123" / b"12" / 1.5 to the integer 123 / 12 / 1 and floats
    are encodable): a constant argument is encoded as the constant itself.  Everything else is as
    written, including list.insert(-1, x) semantics, the fixed memo keys 321987 / 1 / 2, the memo
-   index taken from a symbolic run of the (already prefixed) pickle, and insert_magic_int's
-   treatment of a negative index other than -1.
+   index taken from a symbolic run of the (already prefixed) pickle.
    Executable definitions only. *)
 From Coq Require Import List String ZArith Bool Arith.
 From Verif Require Import Base Ops Interp.
@@ -119,9 +118,13 @@ Definition append_python (m n : string) (args : list const) (pop_result : bool) 
   Ok (insert_last_seq (append_ops m n args pop_result) p).
 
 (* self.insert(index, Int(magic)); self.insert(-1 if index == -1 else index + 1, Pop()) *)
+(* a negative index is resolved against the CURRENT length first (repo fix: insert_magic_int with a
+   negative index), then INT goes to slot i and POP to slot i+1 *)
+Definition magic_slot (index : Z) (p : list op) : Z :=
+  if (index <? 0)%Z then Z.max (Z.of_nat (List.length p) + index) 0 else index.
 Definition insert_magic_int (magic index : Z) (p : list op) : list op :=
-  let p1 := py_insert index (OConst (CInt magic)) p in
-  py_insert (if (index =? -1)%Z then (-1)%Z else (index + 1)%Z) OPop p1.
+  let i := magic_slot index p in
+  py_insert (i + 1) OPop (py_insert i (OConst (CInt magic)) p).
 
 (* the opcodes insert_function_call_on_unpickled_object places before STOP.  [fdef] is the
    function definition text, [fname] the name its regular expression extracts, [bytecode] =
